@@ -347,6 +347,7 @@ func runAttackVia(t *rapid.T, c hx.Creds, cmdName string, a Attack, fixedDraw in
 	for _, s := range w.BMC.Sessions {
 		other = s
 	}
+	var rehearsal *simbmc.Rx
 	sess, err := w.T.NewV2Session(ctx, c.Opts())
 	if err != nil {
 		r.msg = "harness: session failed: " + err.Error()
@@ -366,10 +367,54 @@ func runAttackVia(t *rapid.T, c hx.Creds, cmdName string, a Attack, fixedDraw in
 		g := rapid.Custom(func(t *rapid.T) int { call = e.Prepare(t, w.BMC); return 0 })
 		g.Example(fixedDraw)
 	}
+	// what the session has been through before the attack: nothing, an ordinary
+	// command, or a Close that did not go through (the BMC never answered it and
+	// keeps the session open) - none of which changes what must be rejected
+	switch (c.Seed >> 9) % 4 {
+	case 1:
+		// (a rehearsal of the command first, so that an authentic reply can be made
+		// later even if the BMC finds nothing to answer)
+		w.BMC.Intercept = func(b *simbmc.BMC, rx *simbmc.Rx) {
+			if rx.Sess == bs && rx.Msg != nil && rx.ReqErr == nil {
+				rehearsal = rx
+			}
+		}
+		rctx, rcancel := w.Ctx(2)
+		sess.SendCommand(rctx, call.Cmd)
+		rcancel()
+		call = call.Fresh()
+		k := uint16(ref.NetFnApp)<<8 | uint16(ref.CmdCloseSession)
+		orig := w.BMC.Handlers[k]
+		w.BMC.Handlers[k] = func(b *simbmc.BMC, rx *simbmc.Rx) (byte, []byte) { return 0xD4, nil }
+		w.BMC.Intercept = func(b *simbmc.BMC, rx *simbmc.Rx) { rx.Replies = nil }
+		pctx, pcancel := w.Ctx(1)
+		if err := sess.Close(pctx); err == nil {
+			r.msg = "harness: Close succeeded without a reply"
+		}
+		pcancel()
+		w.BMC.Handlers[k], w.BMC.Intercept = orig, nil
+		ev.Label("attack-after-close-that-did-not-go-through")
+	case 2:
+		pctx, pcancel := w.Ctx(2)
+		sess.GetChassisStatus(pctx)
+		pcancel()
+	}
+	if r.msg != "" {
+		return
+	}
 	first := true
 	start := w.Net.Sends
 	busySent := false
 	w.BMC.Intercept = func(b *simbmc.BMC, rx *simbmc.Rx) {
+		if rx.Sess == bs && len(rx.Replies) == 0 && first && rehearsal != nil && invoke == nil {
+			// the BMC could make nothing of the request (it was not signed, say): the
+			// attacker answers all the same, starting from the reply the BMC gave to
+			// the same command earlier
+			if h := b.Handlers[uint16(rehearsal.Msg.NetFn)<<8|uint16(rehearsal.Msg.Cmd)]; h != nil {
+				cc, body := h(b, rehearsal)
+				rx.Replies = []memnet.Out{b.Wrap(bs, b.ResponseFor(rehearsal.Msg, cc, body).Bytes())}
+			}
+		}
 		if rx.Sess != bs || len(rx.Replies) == 0 || !first {
 			return
 		}
@@ -582,5 +627,5 @@ func TestCoverage(t *testing.T) {
 	for _, f := range forgeries {
 		need = append(need, "attack:forge:"+f)
 	}
-	ev.RequireLabels(t, 1, append(need, "high-level:Close()", "high-level:ChassisControl()", "forgery-after-temporary-code")...)
+	ev.RequireLabels(t, 1, append(need, "high-level:Close()", "high-level:ChassisControl()", "forgery-after-temporary-code", "attack-after-close-that-did-not-go-through")...)
 }
